@@ -48,21 +48,104 @@ theorem ideal_cat (lo hi : E) : ideal sem σ (.cat lo hi) = ideal sem σ lo + id
 
 /-! ### mkSlice -/
 
-theorem size_mkSlice (x : E) (p s : Nat) : (mkSlice x p s).size = s := by
-  unfold mkSlice
-  split
-  · rename_i h; exact h.2.symm
-  · split <;> rfl
+theorem size_mkSlice : ∀ (x : E) (p s : Nat), (mkSlice x p s).size = s
+  | .cst v sz, p, s => by
+    unfold mkSlice; split
+    · rename_i h; exact h.2.symm
+    · rfl
+  | .cat lo hi, p, s => by
+    unfold mkSlice; split
+    · rename_i h; exact h.2.symm
+    · split
+      · exact size_mkSlice lo p s
+      · split
+        · exact size_mkSlice hi _ s
+        · rfl
+  | .slc y p' s', p, s => by
+    unfold mkSlice; split
+    · rename_i h; exact h.2.symm
+    · split
+      · exact size_mkSlice y _ s
+      · rfl
+  | .reg n sz, p, s => by
+    unfold mkSlice; split
+    · rename_i h; exact h.2.symm
+    · rfl
+  | .addc x c, p, s => by
+    unfold mkSlice; split
+    · rename_i h; exact h.2.symm
+    · rfl
+  | .op o l r sz, p, s => by
+    unfold mkSlice; split
+    · rename_i h; exact h.2.symm
+    · rfl
+  | .load b d sz be ms, p, s => by
+    unfold mkSlice; split
+    · rename_i h; exact h.2.symm
+    · rfl
 
-theorem ideal_mkSlice (x : E) (p s : Nat) : ideal sem σ (mkSlice x p s) = (ideal sem σ x >>> p) % 2 ^ s := by
-  unfold mkSlice
-  split
-  · rename_i h
-    rw [h.1, h.2, Nat.shiftRight_zero, ideal_mod]
-  · split
-    · rename_i v sz
-      simp only [ideal]
-      rw [Nat.mod_mod]
+theorem shift_low (L H a p s : Nat) (h : p + s ≤ a) : ((L + H * 2 ^ a) >>> p) % 2 ^ s = (L >>> p) % 2 ^ s := by
+  rw [Nat.shiftRight_eq_div_pow, Nat.shiftRight_eq_div_pow]
+  have e : 2 ^ a = 2 ^ p * (2 ^ (a - p - s) * 2 ^ s) := by
+    rw [← Nat.pow_add, ← Nat.pow_add]; congr 1; omega
+  rw [e, ← Nat.mul_assoc, Nat.mul_comm H, Nat.mul_assoc, Nat.add_mul_div_left _ _ (Nat.two_pow_pos _),
+    ← Nat.mul_assoc, Nat.add_mul_mod_self_right]
+
+theorem shift_high (L H a p : Nat) (hL : L < 2 ^ a) (h : a ≤ p) : (L + H * 2 ^ a) >>> p = H >>> (p - a) := by
+  rw [Nat.shiftRight_eq_div_pow, Nat.shiftRight_eq_div_pow]
+  have e : 2 ^ p = 2 ^ a * 2 ^ (p - a) := by rw [← Nat.pow_add]; congr 1; omega
+  rw [e, ← Nat.div_div_eq_div_mul, Nat.add_mul_div_right _ _ (Nat.two_pow_pos _), Nat.div_eq_of_lt hL, Nat.zero_add]
+
+theorem slice_slice (X p' s' p s : Nat) (h : p + s ≤ s') :
+    (((X >>> p') % 2 ^ s') >>> p) % 2 ^ s = (X >>> (p' + p)) % 2 ^ s := by
+  rw [Nat.shiftRight_add]
+  generalize X >>> p' = Y
+  -- Y % 2^s' = low part; write Y = (Y % 2^s') + (Y / 2^s') * 2^s'
+  have hY : Y = Y % 2 ^ s' + (Y / 2 ^ s') * 2 ^ s' := by
+    rw [Nat.mul_comm]; exact (Nat.mod_add_div Y (2 ^ s')).symm
+  conv => rhs; rw [hY]
+  exact (shift_low _ _ _ _ _ h).symm
+
+theorem ideal_mkSlice : ∀ (x : E) (p s : Nat), ideal sem σ (mkSlice x p s) = (ideal sem σ x >>> p) % 2 ^ s
+  | .cst v sz, p, s => by
+    unfold mkSlice; split
+    · rename_i h; rw [h.1, h.2, Nat.shiftRight_zero]; exact (ideal_mod sem σ (.cst v sz)).symm
+    · simp only [ideal]; rw [Nat.mod_mod]
+  | .cat lo hi, p, s => by
+    unfold mkSlice; split
+    · rename_i h; rw [h.1, h.2, Nat.shiftRight_zero]; exact (ideal_mod sem σ (.cat lo hi)).symm
+    · split
+      · rename_i h
+        rw [ideal_mkSlice lo p s, ideal_cat]
+        exact (shift_low _ _ _ _ _ h).symm
+      · split
+        · rename_i h
+          rw [ideal_mkSlice hi _ s, ideal_cat, shift_high _ _ _ _ (ideal_lt sem σ lo) h]
+        · simp only [ideal]
+  | .slc y p' s', p, s => by
+    unfold mkSlice; split
+    · rename_i h; rw [h.1, h.2, Nat.shiftRight_zero]; exact (ideal_mod sem σ (.slc y p' s')).symm
+    · split
+      · rename_i h
+        rw [ideal_mkSlice y _ s]
+        simp only [ideal]
+        exact (slice_slice _ _ _ _ _ h).symm
+      · simp only [ideal]
+  | .reg n sz, p, s => by
+    unfold mkSlice; split
+    · rename_i h; rw [h.1, h.2, Nat.shiftRight_zero]; exact (ideal_mod sem σ (.reg n sz)).symm
+    · simp only [ideal]
+  | .addc x c, p, s => by
+    unfold mkSlice; split
+    · rename_i h; rw [h.1, h.2, Nat.shiftRight_zero]; exact (ideal_mod sem σ (.addc x c)).symm
+    · simp only [ideal]
+  | .op o l r sz, p, s => by
+    unfold mkSlice; split
+    · rename_i h; rw [h.1, h.2, Nat.shiftRight_zero]; exact (ideal_mod sem σ (.op o l r sz)).symm
+    · simp only [ideal]
+  | .load b d sz be ms, p, s => by
+    unfold mkSlice; split
+    · rename_i h; rw [h.1, h.2, Nat.shiftRight_zero]; exact (ideal_mod sem σ (.load b d sz be ms)).symm
     · simp only [ideal]
 
 /-! ### mkCat / catList -/
@@ -93,6 +176,65 @@ theorem ideal_catList_cons (e : E) (rest : List E) :
   cases rest with
   | nil => simp [catList, ideal]
   | cons e' r => simp only [catList, ideal_mkCat]
+
+/-! ### read-back joining -/
+
+theorem size_mkWhole (x : E) (p n : Nat) : (mkWhole x p n).size = n := by
+  unfold mkWhole; split
+  · rename_i h; exact h.2.symm
+  · rfl
+
+theorem ideal_mkWhole (x : E) (p n : Nat) : ideal sem σ (mkWhole x p n) = (ideal sem σ x >>> p) % 2 ^ n := by
+  unfold mkWhole; split
+  · rename_i h; rw [h.1, h.2, Nat.shiftRight_zero]; exact (ideal_mod sem σ x).symm
+  · simp only [ideal]
+
+/-- two adjacent slices are one slice -/
+theorem merge_slices (X p s t : Nat) :
+    (X >>> p) % 2 ^ s + ((X >>> (p + s)) % 2 ^ t) * 2 ^ s = (X >>> p) % 2 ^ (s + t) := by
+  rw [Nat.shiftRight_add, Nat.shiftRight_eq_div_pow (X >>> p) s, Nat.pow_add, Nat.mod_mul, Nat.mul_comm]
+
+theorem mkCatJ_spec (lo hi : E) :
+    ideal sem σ (mkCatJ lo hi) = ideal sem σ lo + ideal sem σ hi * 2 ^ lo.size ∧
+    (mkCatJ lo hi).size = lo.size + hi.size := by
+  unfold mkCatJ
+  split
+  · rename_i x p s y q t
+    split
+    · rename_i h
+      obtain ⟨rfl, rfl⟩ := h
+      refine ⟨?_, by simp only [size_mkWhole, E.size]⟩
+      rw [ideal_mkWhole]
+      simp only [ideal, E.size]
+      exact (merge_slices _ _ _ _).symm
+    · exact ⟨ideal_mkCat sem σ _ _, size_mkCat _ _⟩
+  · rename_i x p s y q t rest
+    split
+    · rename_i h
+      obtain ⟨rfl, rfl⟩ := h
+      refine ⟨?_, by simp only [E.size, size_mkWhole]; omega⟩
+      rw [ideal_cat, ideal_cat, ideal_mkWhole, size_mkWhole]
+      simp only [ideal, E.size]
+      rw [← merge_slices, Nat.pow_add, Nat.add_mul, ← Nat.mul_assoc, Nat.add_assoc,
+        Nat.mul_right_comm (ideal sem σ rest) (2 ^ s) (2 ^ t)]
+    · exact ⟨ideal_mkCat sem σ _ _, size_mkCat _ _⟩
+  · exact ⟨ideal_mkCat sem σ _ _, size_mkCat _ _⟩
+
+theorem catListJ_spec : ∀ (es : List E),
+    ideal sem σ (catListJ es) = ideal sem σ (catList es) ∧ (catListJ es).size = (catList es).size
+  | [] => ⟨rfl, rfl⟩
+  | [e] => ⟨rfl, rfl⟩
+  | e :: e' :: rest => by
+    obtain ⟨ih1, ih2⟩ := catListJ_spec (e' :: rest)
+    obtain ⟨h1, h2⟩ := mkCatJ_spec sem σ e (catListJ (e' :: rest))
+    have hc : catList (e :: e' :: rest) = mkCat e (catList (e' :: rest)) := rfl
+    have hj : catListJ (e :: e' :: rest) = mkCatJ e (catListJ (e' :: rest)) := rfl
+    rw [hc, hj, h1, h2, ideal_mkCat, size_mkCat, ih1, ih2]
+    exact ⟨rfl, rfl⟩
+
+omit sem σ in
+theorem size_catListJ (es : List E) : (catListJ es).size = (catList es).size :=
+  (catListJ_spec (fun _ _ _ _ => 0) ⟨fun _ _ => 0, fun _ => 0⟩ es).2
 
 /-- a composition of 8-bit parts is the little-endian assembly of their values -/
 theorem ideal_catList_bytes : ∀ (es : List E), (∀ e ∈ es, e.size = 8) →
